@@ -9,6 +9,10 @@
 //	              pools, two hard supply + two hard borrow denoms, two earn vaults sharing reward denoms):
 //	              per (user, claim object, reward denom) claims + accrued against the harness's own time
 //	              integral summed over the instances, and the claim rules (multi.go)
+//	validators  : the delegator source with several validators that are jailed, unjailed, slashed (bonded and
+//	              unbonding), pushed out of and into the bonded set through the real staking / slashing keepers and
+//	              the staking end blocker; every delegator of the chain against the harness's own time integral of
+//	              its tokens delegated to BONDED validators (validators.go)
 package main
 
 import (
@@ -27,8 +31,15 @@ func main() {
 	if os.Getenv("C09_PURE_ONLY") != "" {
 		return
 	}
+	if os.Getenv("C09_VAL_ONLY") != "" {
+		valPart(out, r.Fork(6))
+		return
+	}
 	if os.Getenv("C09_MULTI_ONLY") == "" {
 		keeperPart(out, r.Fork(3))
 	}
 	multiPart(out, r.Fork(5))
+	if os.Getenv("C09_MULTI_ONLY") == "" {
+		valPart(out, r.Fork(6))
+	}
 }
